@@ -9,6 +9,7 @@ import (
 	"strconv"
 	"sync"
 	"syscall"
+	"time"
 
 	"verif/sim/simnet"
 )
@@ -33,6 +34,11 @@ type Sched struct {
 	Clock    int64 // global event counter (stamps for histories)
 	Stats    map[string]int64
 	daemonIn *schedTask // the daemon-side task currently inside an operation
+	// MutexFree, when set, replaces the blanket "one daemon task inside an operation at a time" rule by the real
+	// thing: a daemon task may start an operation when a non-blocking probe of the unit's in-process lock succeeds.
+	// A task that nevertheless blocks on that lock in the middle of an operation (code that takes it late) is noticed
+	// by a real-time watchdog and set aside until it shows up at a step again.
+	MutexFree func() bool
 }
 
 type schedTask struct {
@@ -41,6 +47,7 @@ type schedTask struct {
 	daemon bool
 	grant  chan struct{}
 	parked bool
+	stuck  bool // running but not progressing: waiting for an in-process lock held by a parked task
 	kind   string
 	path   string
 	done   bool
@@ -134,7 +141,7 @@ func (s *Sched) signal() {
 func (t *Task) park(kind, path string) {
 	st := t.st
 	t.s.mu.Lock()
-	st.parked, st.kind, st.path = true, kind, path
+	st.parked, st.stuck, st.kind, st.path = true, false, kind, path
 	t.s.mu.Unlock()
 	t.s.signal()
 	<-st.grant
@@ -169,15 +176,31 @@ func lockFree(statusPath string) bool {
 // remaining task ineligible (a deadlock in the code under test).
 func (s *Sched) Run() bool {
 	for {
-		<-s.wake
+		select {
+		case <-s.wake:
+		case <-time.After(150 * time.Millisecond):
+			// nobody parked or finished for a long (real) while: whoever is running is waiting for an in-process lock
+			s.mu.Lock()
+			for _, t := range s.order {
+				if !t.done && !t.parked && !t.stuck {
+					t.stuck = true
+					s.Stats["sched_stuck_on_inprocess_lock"]++
+				}
+			}
+			s.mu.Unlock()
+		}
 		for {
 			s.mu.Lock()
-			allParked, live := true, 0
+			allParked, live, stuck := true, 0, 0
 			for _, t := range s.order {
 				if t.done {
 					continue
 				}
 				live++
+				if t.stuck {
+					stuck++
+					continue
+				}
 				if !t.parked {
 					allParked = false
 				}
@@ -192,11 +215,13 @@ func (s *Sched) Run() bool {
 			}
 			var elig []*schedTask
 			for _, t := range s.order {
-				if t.done {
+				if t.done || t.stuck {
 					continue
 				}
 				switch {
-				case t.kind == "op.start" && t.daemon && s.daemonIn != nil:
+				case t.kind == "op.start" && t.daemon && s.MutexFree == nil && s.daemonIn != nil:
+					s.Stats["sched_daemon_serialised"]++
+				case t.kind == "op.start" && t.daemon && s.MutexFree != nil && !s.MutexFree():
 					s.Stats["sched_daemon_serialised"]++
 				case len(t.kind) > 5 && t.kind[len(t.kind)-5:] == ".lock" && !lockFree(t.path):
 					s.Stats["sched_lock_waits"]++
@@ -206,6 +231,9 @@ func (s *Sched) Run() bool {
 			}
 			if len(elig) == 0 {
 				s.mu.Unlock()
+				if stuck > 0 && stuck < live {
+					break // (cannot happen: somebody must be eligible if a lock holder is parked; wait for the watchdog)
+				}
 				return false
 			}
 			s.decision++
